@@ -19,6 +19,16 @@ class FakeFile:
         self.log = log
 
     def read(self, n):
+        # a socket file refuses every read after one read timed out (SocketIO); a read only times out when the socket is in
+        # timeout mode (settimeout(t > 0)) and no data is there - in non-blocking mode it answers None
+        if getattr(self, "timed_out", False):
+            raise OSError("cannot read from timed out object")
+        if self.script and (self.script[0] is None or isinstance(self.script[0], tuple)) and (self.sock_timeout() or 0) > 0:
+            self.script.pop(0)
+            self.timed_out = True
+            self.log.append(("read", "timeout"))
+            import socket as _s
+            raise _s.timeout("timed out")
         if not self.script:
             self.log.append(("read", "EOF"))
             return b""
@@ -32,9 +42,18 @@ class FakeFile:
         self.log.append(("read", len(item)))
         return item
 
+    def sock_timeout(self):
+        h = getattr(self, "holder", None)
+        return h.get("timeout") if h else None
+
     def write(self, data):
         if getattr(self, "fail_writes", False):
             raise BrokenPipeError("peer closed")
+        cb = getattr(self, "while_blocked", None)
+        if cb is not None:
+            # the send buffer is full: this write waits, and the other thread of the host (the reader) runs meanwhile
+            self.while_blocked = None
+            cb()
         return len(data)
 
     def flush(self):
@@ -49,7 +68,8 @@ class FakeSock:
         self.holder = holder
 
     def setsockopt(self, *a): pass
-    def settimeout(self, *a): pass
+    def settimeout(self, t=None):
+        self.holder["timeout"] = t
     def connect(self, addr): pass
     def close(self): pass
     def fileno(self): return 99
@@ -76,6 +96,7 @@ class FakeSelector:
 
 def make_device(script, log):
     holder = {"file": FakeFile(script, log)}
+    holder["file"].holder = holder
     real_socket, real_selectors = DEV.socket, DEV.selectors
     DEV.socket = types.SimpleNamespace(socket=lambda *a, **k: FakeSock(holder), AF_INET=2, SOCK_STREAM=1,
                                        IPPROTO_TCP=6, TCP_NODELAY=1, timeout=real_socket.timeout, error=real_socket.error)
@@ -120,6 +141,7 @@ def run_reconnect(stream, script):
         if d.readline() is DEV.READ_EOF:
             break
     holder = {"file": FakeFile(script, log)}
+    holder["file"].holder = holder
     real_socket, real_selectors = DEV.socket, DEV.selectors
     DEV.socket = types.SimpleNamespace(socket=lambda *a, **k: FakeSock(holder), AF_INET=2, SOCK_STREAM=1,
                                        IPPROTO_TCP=6, TCP_NODELAY=1, timeout=real_socket.timeout, error=real_socket.error)
@@ -139,15 +161,22 @@ def run_reconnect(stream, script):
     return results, problems
 
 
-def run_script(stream, script, write_fails_before=None):
+HOST_ACTIONS = ("reset", "write", "write-blocked")
+
+
+def run_script(stream, script, write_fails_before=None, action=None):
     """Returns (results, problems). write_fails_before = k: before the k-th readline() the host tries to write and the write
-    fails (the peer has closed its side): whatever was received must still be delivered."""
+    fails (the peer has closed its side): whatever was received must still be delivered.
+    action = (k, what): before the k-th readline() the host calls reset() (documented to have no effect on a network device),
+    writes successfully, or writes while the send buffer is full - the write waits and the reading thread gets one readline()
+    in meanwhile (the only point at which a second thread can run inside a sequential write)."""
     log = []
     d = make_device(script, log)
     results = []
     nnone = sum(1 for x in script if x is None or isinstance(x, tuple))
     limit = len(script) + stream.count(b"\n") + 6
     eof_seen = False
+    raised = None
     for call in range(limit):
         if write_fails_before is not None and call == write_fails_before:
             d._socketfile.fail_writes = True
@@ -155,12 +184,36 @@ def run_script(stream, script, write_fails_before=None):
                 d.write(b"M105\n")
             except DEV.DeviceError:
                 pass
-        r = d.readline()
+        if action is not None and call == action[0]:
+            try:
+                if action[1] == "reset":
+                    d.reset()
+                elif action[1] == "write":
+                    d.write(b"M105\n")
+                else:
+                    def reader():
+                        results.append(d.readline())
+                    d._socketfile.while_blocked = reader
+                    d.write(b"M105\n")
+            except DEV.DeviceError as e:
+                raised = e
+                break
+            if results and results[-1] is DEV.READ_EOF:
+                eof_seen = True
+                break
+        try:
+            r = d.readline()
+        except DEV.DeviceError as e:
+            raised = e
+            break
         results.append(r)
         if r is DEV.READ_EOF:
             eof_seen = True
             break
     problems = []
+    if raised is not None:
+        problems.append(("read-or-write-raised", f"{type(raised).__name__}: {raised} although the peer never failed; lines so far {[x for x in results if x]!r} for stream {short(stream)}"))
+        return results, problems
     if not eof_seen:
         problems.append(("no-eof", f"READ_EOF not returned within {limit} calls"))
     else:
@@ -282,6 +335,14 @@ def _work(item):
                         n += 1
                         for sig, msg in problems3:
                             out.append((sig, msg, {"stream": list(stream), "script": enc(script), "variant": tag}))
+                if 1 <= len(stream) <= 4 and sum(1 for x in script if x is None or isinstance(x, tuple)) <= 1:
+                    # the host does something else between two reads: reset(), a write, a write that has to wait while the reader runs
+                    for k in range(0, len(res)):
+                        for what in HOST_ACTIONS:
+                            res4, problems4 = run_script(stream, script, action=(k, what))
+                            n += 1
+                            for sig, msg in problems4:
+                                out.append((sig + ":host-" + what, msg + f" (host action {what} before readline #{k})", {"stream": list(stream), "script": enc(script), "action": [k, what]}))
                 if len(stream) <= 4 and script is not None and not any(x is None or isinstance(x, tuple) for x in script):
                     # a failed write (the peer closed its side) before any of the readline calls: nothing received is lost
                     for k in range(0, len(res)):
@@ -349,7 +410,7 @@ def run(tier, seed):
                  f"every byte string over {{a, LF, CR}} of length <= {crlen} containing a CR and over {{a, LF, CR, NUL, FF, FS, 0x85, 0xff}} of length <= {exlen} containing one of the last five ({ncr} streams; only LF ends a line) x every composition x <= 1 no-data-yet answer; plus "
                  f"{len(longs)} long-stream fragmentations (8 streams up to 513 bytes x cyclic chunk-size patterns over {{1,2,100,255,256}}, "
                  "<= 1 'no data yet'); each script is run through the real Device (socket flavour, connect() with socket/selectors "
-                 "substituted) calling readline() until READ_EOF; for streams of <= 4 bytes additionally a failing write injected before each readline call, a second Device alive and reading in between, and the same Device connected again after its first stream ended; distinct = distinct result sequences"),
+                 "substituted) calling readline() until READ_EOF; for streams of <= 4 bytes additionally a failing write injected before each readline call, a second Device alive and reading in between, the same Device connected again after its first stream ended, and (scripts with <= 1 no-data-yet answer) one host action before each readline call: reset(), a successful write, a write that waits on a full send buffer while the reading thread performs one readline (the fake socket models timeout mode: a read that finds no data while settimeout(t > 0) is in force times out and the socket file refuses all later reads); distinct = distinct result sequences"),
         "exhaustive": True,
         "exhaustive_note": "the stated script space is enumerated completely; streams outside it are not covered",
         "samples": [{"stream": "a\\na", "script": [[97], ["none", True], [10, 97]], "results": ["a\\n", "a", None]}],
@@ -367,5 +428,5 @@ def replay(body):
     elif rp.get("variant") == "reconnect":
         results, problems = run_reconnect(bytes(rp["stream"]), dec(rp["script"]))
     else:
-        results, problems = run_script(bytes(rp["stream"]), dec(rp["script"]), rp.get("write_fails_before"))
+        results, problems = run_script(bytes(rp["stream"]), dec(rp["script"]), rp.get("write_fails_before"), action=tuple(rp["action"]) if rp.get("action") else None)
     return {"results": [r if r is None else r.decode("latin1") for r in results], "violations": problems}
